@@ -215,6 +215,15 @@ NEGATIVES = [
     ("chantype-conflict", ["mark_type 1 0 t", "X", "mark_set 1 4"], ["mark_type 1 1 t", "X"]),
     ("label-conflict", ["mark_type 1 0 t", "mark_label 1 3 a", "X"], ["mark_type 1 0 t", "mark_label 1 3 b", "X"]),
 ]
+# conflicting strings of particular shapes (one a proper prefix of the other in
+# either order, last character, case, length): a comparison that is not an
+# exact string comparison lets some of them through
+_SHAPES = [("Init phase", "Init"), ("Init", "Init phase"), ("abc", "abd"), ("abc", "Abc"), ("a" * 60, "a" * 59),
+           ("x", "xx"), ("phase 1", "phase 10")]
+for _k, (_x, _y) in enumerate(_SHAPES):
+    NEGATIVES.append(("label-conflict-shape-%d" % _k, ["mark_type 1 0 t", "mark_label 1 3 %s" % _x, "X", "mark_set 1 3"],
+                ["mark_type 1 0 t", "mark_label 1 3 %s" % _y, "X"]))
+    NEGATIVES.append(("title-conflict-shape-%d" % _k, ["mark_type 1 0 %s" % _x, "X", "mark_set 1 4"], ["mark_type 1 0 %s" % _y, "X"]))
 # controls: the same shapes without the misuse must be accepted
 CONTROLS = [
     ("ctl-agreeing-definitions", ["mark_type 1 0 t", "mark_label 1 3 a", "X", "mark_set 1 3"],
@@ -305,8 +314,9 @@ def main(argv):
                    "of threads that agree, values incl. negative and unlabeled, interleaved with pause/resume/cool/warm and "
                    "OAs) executed on the ASan+UBSan libovni; the streams the library wrote are merged by clock into the "
                    "history, emulated by ovniemu -l and compared per event for types 100+t (plus base rows) on thread and "
-                   "CPU rows; .pcf titles and labels checked. 18 single misuses/conflicts must be refused at run time or in "
-                   "emulation, 2 controls accepted. distinct_nontrivial = distinct (types, threads) shapes + negative cases",
+                   "CPU rows; .pcf titles and labels checked. %d single misuses/conflicts (label and title conflicts in "
+                   "several string shapes) must be refused at run time or in emulation, %d controls accepted. distinct_nontrivial "
+                   "= distinct (types, threads) shapes + negative cases" % (len(NEGATIVES), len(CONTROLS)),
            "samples": [{"types": {str(k): v["kind"] for k, v in p0["types"].items()},
                         "first_ops": p0["procs"][0]["threads"][0]["ops"][:12]}],
            "mark_events_compared": marks, "refused_where": where}
